@@ -329,12 +329,86 @@ def judgeC09 (ops : List OpRec) : List String :=
     | _ => s) ({} : JSt)
   s.out
 
+/-! ### C10 -/
+
+/-- let the judge's copy of the cluster see the requests of an operation (commits, produce counters, consumed scripts) -/
+def evolve (c : Cluster) (op : OpRec) : Cluster :=
+  op.evs.foldl (fun c e => match e with
+    | .req h f _ => match Spec.parseFrame f with
+      | some r => (handle c h r).1
+      | none => c
+    | _ => c) c
+
+def hostOf (b : BrokerMeta) : Bytes := b.host ++ strBytes ":" ++ strBytes (toString b.port)
+
+/-- what `topics()` must show after a full metadata load of this cluster -/
+def expectTopics (c : Cluster) : String :=
+  let ts := sortBy (fun a b => bytesLt a.name b.name) c.topics
+  "ok" ++ String.join (ts.map fun t =>
+    " " ++ toHexTok t.name ++ "=" ++ joinWith "," ((List.range t.parts.length).zip t.parts |>.map fun (i, p) =>
+      match c.brokers.find? (·.nodeId == p.leader) with
+      | some b => s!"{i}:{b.nodeId}@{toHexTok (hostOf b)}"
+      | none => s!"{i}:~"))
+
+def ledParts (c : Cluster) (t : Bytes) : Option (List (Nat × PartState)) :=
+  (c.topic? t).map fun ts => (List.range ts.parts.length).zip ts.parts |>.filter fun (_, p) => c.brokers.any (·.nodeId == p.leader)
+
+def dedupB (xs : List Bytes) : List Bytes := xs.foldl (fun acc x => if acc.contains x then acc else acc ++ [x]) []
+
+def judgeC10 (ops : List OpRec) : List String :=
+  let s := ops.foldl (fun (s : JSt) op =>
+    let s := { s with cluster := applySetup s.cluster op.setup }
+    let c := s.cluster
+    let faulty := !c.faults.all (·.count == 0) || op.evs.any (fun e => match e with | .io _ _ => true | .connect _ ok => !ok | _ => false)
+    let s := match op.toks with
+    | [_, "topics"] =>
+      if op.result == expectTopics c then s else viol s "C10-metadata-view" op s!"topics() shows `{op.result}`, the broker sent `{expectTopics c}`"
+    | _ :: "fetch_offsets" :: time :: ts =>
+      if faulty then s else
+      match time.toInt?, ts.mapM fromHex with
+      | some time, some ts =>
+        -- a topic listed twice is asked twice
+        let want : List (Bytes × List (Int × Int)) := (dedupB ts).filterMap fun t =>
+          (ledParts c t).bind fun ps =>
+            let k := (ts.filter (· == t)).length
+            let one := ps.map fun (i, p) => (((i : Nat) : Int), offsetForTime p time)
+            if one.isEmpty then none else some (t, (List.replicate k one).flatten)
+        if op.result == fmtOffsets want then s else viol s "C10-offsets" op s!"returned `{op.result}`, the brokers sent `{fmtOffsets want}`"
+      | _, _ => s
+    | _ :: "list_offsets" :: time :: ts =>
+      if faulty then s else
+      match time.toInt?, ts.mapM fromHex with
+      | some time, some ts =>
+        let want : List (Bytes × List (Int × Int × Int)) := (dedupB ts).filterMap fun t =>
+          (ledParts c t).bind fun ps =>
+            let k := (ts.filter (· == t)).length
+            let one := ps.map fun (i, p) => (((i : Nat) : Int), offsetForTime p time, time)
+            if one.isEmpty then none else some (t, (List.replicate k one).flatten)
+        if op.result == fmtListOffsets want then s else viol s "C10-list-offsets" op s!"returned `{op.result}`, the brokers sent `{fmtListOffsets want}`"
+      | _, _ => s
+    | _ :: "fetch_group_offsets" :: g :: args =>
+      if faulty || op.result.startsWith "err" then s else
+      match fromHex g, parseTP args with
+      | some g, some tps =>
+        let lookup (t : Bytes) (p : Int) : Int :=
+          match c.groups.find? (fun (e : (Bytes × Bytes × Int) × Int) => e.1 == (g, t, p)) with
+          | some e => e.2
+          | none => -1
+        let want : List (Bytes × List (Int × Int)) := (dedupB (tps.map fun (x : Bytes × Int) => x.1)).map fun t =>
+          (t, (tps.filter fun (x : Bytes × Int) => x.1 == t).map fun (x : Bytes × Int) => (x.2, lookup t x.2))
+        if op.result == fmtOffsets want then s else viol s "C10-group-offsets" op s!"returned `{op.result}`, the coordinator sent `{fmtOffsets want}`"
+      | _, _ => s
+    | _ => s
+    { s with cluster := evolve s.cluster op }) ({} : JSt)
+  s.out
+
 def judge (prop : String) (lines : List String) : List String :=
   let ops := parseOps lines
   match prop with
   | "C12" => judgeC12 ops
   | "C03" => judgeC03 ops
   | "C09" => judgeC09 ops
+  | "C10" => judgeC10 ops
   | _ => []
 
 end Kafka.Judge
